@@ -1,4 +1,5 @@
 Require Import ExtrOcamlBasic.
-From Eupsv Require Import Base.Base Model.PathAlg Model.Setup Model.SetupWf.
+From Eupsv Require Import Base.Base Model.PathAlg Model.Setup Model.SetupWf Model.Resolve Model.SetupFull Generated.Config.
 Extraction "model.ml" keep_types setup request find_setup_product setup_string
-  wf2_check wf2_fields dl_of rank_of.
+  wf2_check wf2_fields dl_of rank_of
+  request_full_simple setup_full_simple select_vro entry_str site_config default_config.
